@@ -276,10 +276,16 @@ pub fn as_rust_type(node_type: &str, doc: &RustDocument) -> RustFieldType {
         "boolean" => RustFieldType::Bool,
         v => RustFieldType::Other(OtherRustType {
             name: to_pascal_case(v),
-            module: namespace.and_then(|ns| {
-                doc.find_module_name_from_namespace_reference(ns)
-                    .map(ToString::to_string)
-            }),
+            module: match namespace {
+                Some(ns) => doc
+                    .find_module_name_from_namespace_reference(ns)
+                    .map(ToString::to_string),
+                // an unprefixed name of a user-defined type lives in the schema's own namespace
+                None => doc
+                    .current_target_namespace
+                    .as_ref()
+                    .map(|ns| ns.rust_mod_name.clone()),
+            },
         }),
     }
 }
